@@ -867,6 +867,28 @@ class C23(Check):
         viol = []
         runs = []
         p = None
+        # seam: numpy's entropy-seeded default_rng() (used by pydoe's lhs when no seed is given) draws its seed
+        # from the simulator instead of the operating system
+        orig_default_rng = np.random.default_rng
+        entropy = [0]
+
+        def sim_default_rng(seed=None, *a, **kw):
+            import sys as _sys
+            if seed is None and _sys._getframe(1).f_globals.get('__name__', '').startswith('pydoe'):
+                # (only the generator's own request: lazily imported modules may build private generators at
+                # import time, once per process)
+                entropy[0] += 1
+                probes.inc('os_entropy_requests_served_by_simulator')
+                seed = [int(plan.get('run_seed', 0)) % (2 ** 63), entropy[0]]
+            return orig_default_rng(seed, *a, **kw)
+        np.random.default_rng = sim_default_rng
+        try:
+            return self._run(plan, keep, log, st, faults, probes, viol, runs)
+        finally:
+            np.random.default_rng = orig_default_rng
+
+    def _run(self, plan, keep, log, st, faults, probes, viol, runs):
+        p = None
         for r in range(2):
             seed, ndraw = plan['rng'][r]
             np.random.seed(seed)
